@@ -267,6 +267,8 @@ def rule_collect(ctx):
            node=comps[0] if comps else f.node, func=f)
     ma = [st for st in walk_no_nested(f.node) if isinstance(st, ast.Assign) and norm(st.targets[0]) == "map_args" and isinstance(st.value, ast.Dict)]
     okm = False
+    if not ma:
+        raise AnalysisError("collect: the keyword table handed to map() (map_args = {...}) was not found")
     if ma:
         d = {norm(k): norm(v) for k, v in zip(ma[0].value.keys, ma[0].value.values) if k is not None}
         okm = d.get("'on_content'") == "True" and d.get("'return_info'") == "True" and d.get("'files'") == "files" and d.get("'start'") == "start" and d.get("'end'") == "end"
